@@ -106,5 +106,10 @@ def impl(case):
     else:
         rec["oracle"] = {"ok": True, "detail": ""}
         tags.append("rules:roundtrip-ok")
+    if inp.get("urlrun"):      # stream urlrun-rules (props/c18_urlrun.py): the distribution of that class
+        from props import c18_urlrun
+        ok = rec["oracle"]["ok"]
+        tags += c18_urlrun.tags(inp["urlrun"], encoded, ok, rec["oracle"].get("known"),
+                                P.rt_known_class(text, km is not False, eu is not False) if ok and "rules:roundtrip-ok" in tags else None)
     rec["tags"] = tags
     return rec
